@@ -55,6 +55,18 @@ fn own_key<V: Fv>(seed: [u8; 32], nmsgs: usize, vseed: u64, rep: &mut Report) {
                         replay(),
                     );
                 }
+                Some(ds) if ds.len() < 42 => {
+                    // PQClean's sign returns an empty signature when the secret key bytes do
+                    // not decode (the wrapper's from_bytes only checks the length)
+                    sk_importable = false;
+                    let b0 = V::basis(&sk);
+                    let mx = |p: &Vec<i16>| p.iter().map(|x| (*x as i32).abs()).max().unwrap();
+                    rep.violation(
+                        "interop:reference-rejects-own-secret-key",
+                        format!("{}: PQClean cannot sign with sk.to_bytes() (max|f|={} max|g|={} max|F|={} max|G|={})", V::NAME, mx(&b0[1]), mx(&b0[0]), mx(&b0[3]), mx(&b0[2])),
+                        replay(),
+                    );
+                }
                 Some(ds) => {
                     let okp = V::pq_verify(&ds, &msg, &pkb) == Some(true);
                     let okf = reframe_from_pq(&ds, V::LOGN, V::SIG_LEN).and_then(|b| V::sig_from_bytes(&b).ok()).map(|s| monitored(|| V::verify(&msg, &s, &pk)).unwrap_or(false)).unwrap_or(false);
